@@ -3,6 +3,12 @@
 package main
 
 import (
+	"bytes"
+	"encoding/base64"
+	"crypto/x509"
+	"crypto/rand"
+	"crypto/ecdh"
+	"crypto/ed25519"
 	"crypto/sha256"
 	"encoding/pem"
 	"fmt"
@@ -193,6 +199,31 @@ func genC09(tier string, r *rng) {
 				continue
 			}
 			emit("seq", "3", hxs("f.bin"), hx(b.data), hxs("f.bin"), hx(a.data), hxs("g.bin"), hx(b.data))
+		}
+	}
+	// equal-length neighbours: inputs of exactly the same byte length in a row (buffers recycled between inspections, results
+	// memoised by address and length): two bare-base64 keys of one size, text of that size, same-size DER and PEM objects
+	{
+		edPub, _, _ := ed25519.GenerateKey(rand.Reader)
+		edSpki, _ := x509.MarshalPKIXPublicKey(edPub)
+		xk, _ := ecdh.X25519().GenerateKey(rand.Reader)
+		xSpki, _ := x509.MarshalPKIXPublicKey(xk.PublicKey())
+		ed2, _, _ := ed25519.GenerateKey(rand.Reader)
+		ed2Spki, _ := x509.MarshalPKIXPublicKey(ed2)
+		b64 := func(d []byte) []byte { return []byte(base64.StdEncoding.EncodeToString(d)) }
+		same := [][]byte{b64(edSpki), b64(xSpki), b64(ed2Spki)}
+		n := len(same[0])
+		text := bytes.Repeat([]byte("note "), n)[:n]
+		same = append(same, text, []byte(strings.Repeat("A", n)), []byte(base64.RawURLEncoding.EncodeToString(edSpki)+"\n\n\n\n")[:n])
+		sameDER := [][]byte{edSpki, xSpki, ed2Spki, r.bytes(len(edSpki))}
+		for _, grp := range [][][]byte{same, sameDER} {
+			for i := range grp {
+				for j := range grp {
+					if i != j {
+						emit("seq", "3", hxs("a.txt"), hx(grp[i]), hxs("b.txt"), hx(grp[j]), hxs("c.txt"), hx(grp[i]))
+					}
+				}
+			}
 		}
 	}
 	nseq, slen := 12, 50
